@@ -1515,15 +1515,53 @@ def check_assign(ctx, tu, sy, f, counts):
 
     def release(st, node):
         locks, known, q, fl, done = st
+        if q and fl == 'stale':
+            found.viol(R4, FN, 'flag-raise-skipped-on-stale-sample', 'the assignment stores the value into queuedValue but raises the flag '
+                       'only when a sample of the flag taken before %s was acquired read false. Between that sample and the lock the '
+                       'consumer\'s update() can take the previous value and lower the flag: the producer then leaves the new value in '
+                       'queuedValue with the flag down, update() keeps returning false and the consumer never obtains it (lost update; '
+                       'the last value is lost for good when the producer stops). Sample the flag inside the critical section, or '
+                       'raise it unconditionally' % T['mutex'], stale_at.get('n', node))
+            return (locks, known, False, False, True)
+        if fl == 'stale':
+            fl = False
         if q and not fl:
             found.viol(R4, FN, 'flag-not-set', 'assignment stores the value into queuedValue but the lock scope ends without setting the '
                        'flag: the consumer never picks the value up', node)
-        if fl and not q:
+        if fl is True and not q:
             found.viol(R4, FN, 'flag-without-value', 'assignment sets the flag in a lock scope that does not store the value', node)
-        return (locks, known, False, False, done or (q and fl))
+        return (locks, known, False, False, done or bool(q and fl is True))
 
     throwers = []       # value stores of this assignment that can throw
     arefs = slot_refs(tu, sy, inl.reachable_fns(f))
+    loads = {}          # flag load node id -> was the mutex held at the load?
+    samples = {}        # local bool initialised from a flag load -> was the mutex held at the load?
+    stale_at = {}
+
+    def refine(blk, si, st):
+        """a branch on the value of the flag: read true under the mutex, the flag is up and stays up until the lock is released
+        (update() lowers it under the same mutex) - the value stored in this scope is announced; read true in a sample taken
+        before the lock was acquired, nothing is known about the flag now"""
+        locks, known, q, fl, done = st
+        atom, truth = sy.edge_truth(blk, si)
+        atom = tu.strip(atom, casts=True) if atom is not None else None
+        if atom is None or not truth or fl is True:
+            return [st]
+        locked = None
+        if atom.get('kind') == 'DeclRefExpr' and atom.get('referencedDecl', {}).get('id') in samples:
+            locked = samples[atom['referencedDecl']['id']]
+        elif atom.get('id') in loads:
+            locked = loads[atom['id']] and LockState.holds(locks, mutex)
+            if not loads[atom['id']]:
+                return [st]             # tested where it was read, outside the lock: says nothing
+        if locked is None:
+            return [st]
+        if locked and LockState.holds(locks, mutex):
+            return [(locks, known, q, True, done)]
+        if not locked and LockState.holds(locks, mutex):
+            stale_at['n'] = tu.node(blk.cond)
+            return [(locks, known, q, 'stale', done)]
+        return [st]
 
     def may_throw(node):
         """can the value store leave by an exception?  (built-in assignment cannot; a call can unless declared noexcept)"""
@@ -1538,10 +1576,15 @@ def check_assign(ctx, tu, sy, f, counts):
         locks, known, q, fl, done = st
         ev = sy.event(e)
         n = tu.node(e[1]) if e[0] == 'S' else None
+        if ev is not None and ev[0] == 'load' and ev[1] == FLAG and isinstance(ev[-1], dict) and 'id' in ev[-1]:
+            loads[ev[-1]['id']] = LockState.holds(locks, mutex)
         if n is not None and n.get('kind') == 'DeclStmt':
             for v in tu.kids(n):        # a local copy of the argument stands for the argument
                 if v.get('kind') == 'VarDecl' and tu.kids(v) and mentions_any(sy, tu.kids(v)[-1], params):
                     params.add(v['id'])
+                if v.get('kind') == 'VarDecl' and tu.kids(v) and (tu.strip(tu.kids(v)[-1], casts=True) or {}).get('id') in loads and \
+                        'const' in (v.get('type', {}).get('qualType') or ''):
+                    samples[v['id']] = loads[tu.strip(tu.kids(v)[-1], casts=True)['id']]
         if ev is not None and ev[0] in LOCK_EVENTS:
             locks2, known = lock_step(sy, VAL, T, locks, known, ev, n, found, R4)
             st2 = (locks2, known, q, fl, done)
@@ -1582,7 +1625,7 @@ def check_assign(ctx, tu, sy, f, counts):
                 if w is not None and params and mentions_any(sy, w[2], params):
                     if may_throw(node):
                         throwers.append('(%s)' % (tu.sd(node).get('q') or 'payload assignment'))
-                    if fl and not q and may_throw(node):
+                    if fl is True and not q and may_throw(node):
                         found.viol(R4, FN, 'flag-raised-before-value-stored', 'the flag is already raised when the value is stored into '
                                    'queuedValue, and this store can throw (%s): if it does, the producer leaves the critical section with '
                                    'the flag set over a slot that still holds the moved-from remains of the previous update(); the next '
@@ -1592,7 +1635,7 @@ def check_assign(ctx, tu, sy, f, counts):
                 found.und(R4, 'queuedValue is written from something other than the argument', node)
         return [st]
 
-    res, outs = inl.explore(f, [(frozenset(), frozenset(), False, False, False)], transfer, None, C12Hooks(sy, found, R4, params))
+    res, outs = inl.explore(f, [(frozenset(), frozenset(), False, False, False)], transfer, refine, C12Hooks(sy, found, R4, params))
     for (st, _rv, via) in outs:
         if g.blocks[via].noret:
             continue
@@ -1945,13 +1988,158 @@ def extra_member_accesses(tu, sy, rec, T, member):
             if n is None or n.get('kind') != 'MemberExpr' or sy.field(n) != (rec, member) or not sy.base_is_this(n):
                 return [st]
             cur = inl.stack[-1] if inl.stack else f
-            out.append((f, cur, LockState.holds(locks, mutex), access_kind(tu, sy, n), n))
+            out.append((f, cur, LockState.holds(locks, mutex), access_kind(tu, sy, n), n,
+                        frozenset(m_ for _h, m_ in locks if m_ is not None and m_[0] == rec)))
             return [st]
 
         inl.explore(f, [(frozenset(), frozenset())], transfer, lambda blk, si, st: [LockState.refine_try(sy, blk, si, st[0], st[1])],
                     C12Hooks(sy, found, R1))
     out += pattern_accesses(tu, sy, rec, T, {member})      # new members the driver does not instantiate
     return out
+
+
+def check_extra_mutex(ctx, tu, sy, rec, T, r, member, counts):
+    """a second std::mutex member M of the class (R-C12-5, lock order).  All threads of the hand-off meet in the public members, so
+    whenever two mutexes of the object are held together every path has to take them in the same order: if one member path
+    acquires B while it holds A and another path - that a second thread may run at the same time - acquires A while it holds B,
+    the two threads block on each other for ever (and every other caller behind them): nothing is handed over again.
+    Decided when every use of M in the member functions is a modelled acquisition (std::lock_guard / std::unique_lock local
+    constructed on it, M.lock() / M.unlock()); the acquisition graph over the mutex members of *this is collected with the lock
+    state carried through followed helpers.  Violation: a cycle through M whose two sides can run concurrently (different sides of
+    the hand-off, two producers, or an unclassified public member).  Anything else about M (try_to_lock, std::lock, passed on,
+    a condition variable waiting on it, uninstantiated users) is undecided."""
+    inst = '%s::%s (lock order)' % (r['q'].replace('rkcommon::containers::', '').replace('rkcommon::utility::', ''), member)
+    M = (rec, member)
+    inl = inliner(tu, T)
+    counts[R5] += 1
+    side_of = lambda f: SIDES[rec].get(last(f['q']), 'any')
+    und = []
+    edges = {}          # (held mutex, acquired mutex) -> [(entry function, function of the acquisition, node)]
+    nacq = [0]
+    for f in uninstantiated_members(tu, rec):
+        if any(x.get('kind') == 'MemberExpr' and x.get('name') == member for x in tu.walk(tu.body(f))):
+            und.append('%s is used in %s, which is not instantiated' % (member, fn_short(f)))
+    for f in tu.functions.values():
+        if f['dep'] or f.get('rec') != rec or tu.cfg(f) is None or f.get('ctor') or f.get('dtor') or not is_public(f):
+            continue
+        found = Found(T['file'], inl)
+        # every mention of M has to be one of the modelled acquisitions
+        for fn in inl.reachable_fns(f):
+            for x in tu.walk(tu.body(fn)) if tu.body(fn) is not None else ():
+                if 'id' not in x or x.get('kind') != 'MemberExpr' or sy.field(x) != M:
+                    continue
+                u = nearest_user(tu, x)
+                uk = (u or {}).get('kind')
+                okuse = False
+                if not sy.base_is_this(x):
+                    pass
+                elif uk in ('CXXConstructExpr', 'CXXTemporaryObjectExpr') and tu.sd(u).get('rec') in ('std::lock_guard', 'std::unique_lock') and \
+                        len([a for a in tu.kids(u) if (tu.strip(a) or {}).get('kind') != 'CXXDefaultArgExpr']) == 1:
+                    vd = nearest_user(tu, u)
+                    okuse = vd is not None and vd.get('kind') == 'VarDecl'
+                elif uk == 'CXXMemberCallExpr' and last(tu.sd(u).get('q') or '') in ('lock', 'unlock') and \
+                        tu.strip(tu.call_parts(u)[1], casts=True) is x:
+                    okuse = True
+                if not okuse:
+                    und.append('%s is used other than locked by a local std::lock_guard / std::unique_lock or lock() / unlock() in %s (%s)'
+                               % (member, fn_short(fn), tu.loc(x)))
+
+        def transfer(blk, i, e, st, f=f):
+            locks, known = st
+            ev = sy.event(e)
+            if ev is None or ev[0] not in LOCK_EVENTS:
+                return [st]
+            acq = []
+            if ev[0] == 'locks':
+                for _var, m, held, _v in ev[1]:
+                    if held is True:
+                        acq.append(m)
+                    elif m is None or m == M or held is None:
+                        und.append('a lock in %s is constructed in a form that is not modelled (%s)' % (fn_short(f), tu.loc(ev[2])))
+            elif ev[0] == 'lk-lock':
+                acq.append(dict(known).get(ev[1]))
+            elif ev[0] == 'm-lock':
+                acq.append(ev[1])
+            heldset = {m for _h, m in locks}
+            cur = inl.stack[-1] if inl.stack else f
+            for a in acq:
+                if a is None:
+                    und.append('a mutex that is not a member of the object is locked in %s' % fn_short(cur))
+                    continue
+                if a == M:
+                    nacq[0] += 1
+                if a in heldset and a == M:
+                    und.append('%s is locked again while held in %s' % (member, fn_short(cur)))
+                for h in heldset:
+                    if h is None:
+                        und.append('%s is locked in %s while a mutex that is not modelled is held' % (a[1], fn_short(cur)))
+                    elif h != a:
+                        edges.setdefault((h, a), []).append((f, cur, ev[-1] if isinstance(ev[-1], dict) else None))
+            locks, known, prob = LockState.apply(locks, known, ev)
+            if prob is not None and (M in {m for _h, m in locks} or M in acq or ev[0] in ('lk-other', 'm-other')):
+                und.append('%s (%s)' % (prob, fn_short(cur)))
+            return [(locks, known)]
+
+        inl.explore(f, [(frozenset(), frozenset())], transfer, lambda blk, si, st: [LockState.refine_try(sy, blk, si, st[0], st[1])],
+                    C12Hooks(sy, found, R5))
+        und += [w for (_r, w) in found.u]
+    if und:
+        ctx.undecided(R5, inst, 'extra mutex member %s: %s' % (member, und[0]), T['file'])
+        return
+    # a cycle through M in the acquisition graph
+    succ = {}
+    for (h, a) in edges:
+        succ.setdefault(h, set()).add(a)
+
+    def path(src, dst, seen):
+        if src == dst:
+            return [src]
+        for nx in sorted(succ.get(src, ())):
+            if nx not in seen:
+                p_ = path(nx, dst, seen | {nx})
+                if p_ is not None:
+                    return [src] + p_
+        return None
+
+    for nx in sorted(succ.get(M, ())):
+        back = path(nx, M, {nx})
+        if back is None:
+            continue
+        cyc = [M] + back                   # M -> nx -> ... -> M
+        hops = list(zip(cyc, cyc[1:]))
+        # two hops of the cycle that two threads can execute at the same time
+        conc = None
+        for i_, e1 in enumerate(hops):
+            for e2 in hops[i_ + 1:]:
+                for s1 in edges[e1]:
+                    for s2 in edges[e2]:
+                        a_, b_ = side_of(s1[0]), side_of(s2[0])
+                        if conc is None and not (a_ == 'consumer' and b_ == 'consumer'):
+                            conc = (e1, s1, e2, s2)
+        if conc is None:
+            ctx.undecided(R5, inst, 'the mutexes %s are acquired in both orders, but only by consumer-side members (one consuming thread): '
+                          'whether two threads can meet there is not decided' % ' / '.join(m[1] for m in cyc[:-1]), T['file'])
+            return
+        e1, s1, e2, s2 = conc
+        # report at the acquisition made while the class mutex (the lock every caller contends for) is already held, else the first
+        first, second = ((e1, s1), (e2, s2)) if e1[0][1] == T['mutex'] else ((e2, s2), (e1, s1))
+        (h1, a1), (f1, c1, n1) = first
+        (h2, a2), (f2, c2, n2) = second
+        chain = lambda f_, c_: fn_short(f_) if f_['id'] == c_['id'] else '%s (called from %s)' % (fn_short(c_), fn_short(f_))
+        ctx.violation(R5, inst, 'lock-order inversion: %s acquires %s while it holds %s, and %s acquires %s while it holds %s%s. A thread in '
+                      'the one and a thread in the other each hold the mutex the other one waits for: both block for ever, every other '
+                      'caller blocks behind them on %s and nothing is handed over again. Take the mutexes of the object in one order '
+                      'everywhere (or do not nest them)'
+                      % (chain(f1, c1), a1[1], h1[1], chain(f2, c2), a2[1], h2[1],
+                         '' if len(hops) == 2 else ' (cycle %s)' % ' -> '.join(m[1] for m in cyc), T['mutex']),
+                      tu.loc(n1) if n1 is not None else T['file'],
+                      key='%s|%s|%s|lock-order-inversion' % (R5, T['file'], fn_short(c1)),
+                      path=['%s: %s' % (tu.loc(n_), tu.show(n_)) for n_ in (n2, n1) if n_ is not None])
+        return
+    nest = sorted({'%s -> %s' % (h[1], a[1]) for (h, a) in edges if M in (h, a)})
+    ctx.ok(R5, inst, 'extra mutex member: %d acquisition(s) on the member paths, %s' % (
+        nacq[0], ('always nested in the order ' + ', '.join(nest)) if nest else 'never held together with another mutex of the object'),
+        T['file'])
 
 
 def check_extra_member(ctx, tu, sy, rec, T, r, member, ct, counts):
@@ -1980,6 +2168,10 @@ def check_extra_member(ctx, tu, sy, rec, T, r, member, ct, counts):
             ctx.undecided(R1, inst, 'extra atomic member %s is read by %s: it may take part in the hand-off protocol, which lock / '
                           'ordering discipline applies is not in the table of the check' % (member, fn_short(a[1])), tu.loc(a[4]))
         return
+    if ct == 'std::mutex':
+        counts[R1] -= 1
+        check_extra_mutex(ctx, tu, sy, rec, T, r, member, counts)
+        return
     if 'mutex' in ct or 'condition_variable' in ct:
         ctx.undecided(R1, inst, 'extra synchronisation member %s (%s): its role is not in the table of the check' % (member, ct), T['file'])
         return
@@ -1990,8 +2182,14 @@ def check_extra_member(ctx, tu, sy, rec, T, r, member, ct, counts):
     unlocked = [a for a in acc if not a[2]]
     writes = [a for a in acc if a[3] == 'write']
     sides = {side_of(a[0]) for a in acc}
+    common = None
+    for a in acc:
+        held_ = a[5] if len(a) > 5 else frozenset()
+        common = held_ if common is None else (common & held_)
     if not unlocked:
         ctx.ok(R1, inst, 'extra member: all %d access(es) are under %s' % (len(acc), T['mutex']), T['file'])
+    elif common:
+        ctx.ok(R1, inst, 'extra member: all %d access(es) are under the member mutex %s' % (len(acc), sorted(common)[0][1]), T['file'])
     elif not writes:
         ctx.ok(R1, inst, 'extra member: never written after construction', T['file'])
     elif sides in ({'producer'}, {'consumer'}):
